@@ -57,7 +57,9 @@ class C11:
                 bad = (tv, fv, rej)
         if self.subset:
             bad, guard_first = "skip", True
-        first_other = min([e.idx for e in s.calls if not (e.term[1][0] == "builtin" and e.term[1][1].endswith("Error"))] or [10 ** 9])
+        # work = a call into the package or a library (a folded condition or a builtin such as any() is part of the guard)
+        first_other = min([e.idx for e in s.calls if e.term[0] == "call" and isinstance(e.term[1], tuple)
+                           and e.term[1][0] != "builtin"] or [10 ** 9])
         guard_first = (bool(s.raises) and s.raises[0].idx < first_other) if not self.subset else True
         if bad == "skip":
             pass
